@@ -342,6 +342,32 @@ def run_property(pid, tier):
                 pass
             nviol += 1
             inst = rg["instances"][0]
+            # the counter-model of a function of the decode tree (one reader, default options) is run on the real code: when a
+            # contract clause fails there too, the model is a failing input, not only a failed proof
+            replayed = None
+            for cand in rg["instances"]:
+                mdl = cand.get("model") or {}
+                fkey = (cand.get("function") or "").split("[")[0]
+                if cand.get("status") == "refuted" and any(k in mdl for k in ("reader._view", "message._view")) and ":" in fkey:
+                    rp = write_replay(pid, nviol, {"property": pid, "function": cand.get("function"), "clause": cand.get("clause"), "obligation": rg["name"],
+                                                   "script": "replay_model.py",
+                                                   "replay_model": {"function": fkey, "contract": cand.get("function"), "model": mdl}})
+                    try:
+                        r_ = subprocess.run([NATIVE_PY, os.path.join(ROOT, "props", "replay_model.py"), rp], capture_output=True, text=True, timeout=120,
+                                            env=dict(os.environ, PYTHONDONTWRITEBYTECODE="1"))
+                        rep = json.loads(r_.stdout.strip().splitlines()[-1]) if r_.stdout.strip() else {}
+                    except Exception:
+                        rep = {}
+                    if rep.get("replayed") and rep.get("failed_clauses"):
+                        replayed = (rp, rep)
+                        break
+            if replayed:
+                rp, rep = replayed
+                spec_ = json.load(open(rp))
+                spec_["native_outcome"] = rep
+                json.dump(spec_, open(rp, "w"), indent=1, default=str)
+                lines.append(f"VIOLATION property={pid} replay={os.path.relpath(rp, OUT_ROOT)}   # obligation {rg['name']} refuted; counter-model replayed on the real code: {rep['failed_clauses'][0]['clause'][:100]}")
+                continue
             path = write_replay(pid, nviol, {"property": pid, "function": inst.get("function"), "clause": inst.get("clause"),
                                              "obligation": rg["name"], "no_failing_input": True,
                                              "prover": {"status": inst["status"], "backend": inst["backend"], "counter_model_inputs": inst.get("model"),
